@@ -7,11 +7,11 @@ From Coq Require Import Lia.
 (* ---- induction principle for the nested tree type *)
 Section TreeInd.
 Variable P : tree -> Prop.
-Hypothesis HF : forall n, P (File n).
+Hypothesis HF : forall n b, P (File n b).
 Hypothesis HD : forall n l ch, Forall P ch -> P (Dir n l ch).
 Fixpoint tree_ind' (t : tree) : P t :=
   match t with
-  | File n => HF n
+  | File n b => HF n b
   | Dir n l ch =>
       HD n l ch ((fix go (ch : list tree) : Forall P ch :=
                     match ch with
@@ -66,7 +66,7 @@ Lemma found_walk_dead prune : forall t p,
   (forall x, below (child p (tname t) true) x -> is_inc (m x) = false) ->
   found_of (walk_tree prune m p t) = [].
 Proof.
-  induction t as [n|n link sub IH] using tree_ind'; intros p H; cbn [walk_tree]; [reflexivity|].
+  induction t as [n b|n link sub IH] using tree_ind'; intros p H; cbn [walk_tree]; [reflexivity|].
   cbn [tname] in H. destruct (link || prune (child p n true)); [reflexivity|].
   rewrite found_of_app, found_level_dead by exact H. cbn [app].
   rewrite found_of_flat_map. apply flat_map_nil_Forall.
@@ -97,7 +97,7 @@ Qed.
 Theorem pruning_invisible_tree : forall t p,
   found_of (walk_tree (prune_real f) m p t) = found_of (walk_tree (prune_doc f) m p t).
 Proof.
-  induction t as [n|n link sub IH] using tree_ind'; intros p; [reflexivity|].
+  induction t as [n b|n link sub IH] using tree_ind'; intros p; [reflexivity|].
   cbn [walk_tree]. destruct link; [reflexivity|]. cbn [orb].
   unfold prune_real at 1, prune_doc at 1. set (q := child p n true).
   destruct (hard_excl f q) eqn:Hh.
@@ -167,7 +167,7 @@ Qed.
 Lemma selected_sound_tree : forall t p x, In (x, Include) (walk_tree (prune_doc f) m p t) ->
   exists n sub, t = Dir n false sub /\ hard_excl f (child p n true) = false /\ selected (child p n true) sub x.
 Proof.
-  induction t as [n|n link sub IH] using tree_ind'; intros p x H; cbn [walk_tree] in H; [destruct H|].
+  induction t as [n b|n link sub IH] using tree_ind'; intros p x H; cbn [walk_tree] in H; [destruct H|].
   destruct link; cbn [orb] in H; [destruct H|]. unfold prune_doc at 1 in H.
   destruct (hard_excl f (child p n true)) eqn:Hh; [destruct H|].
   exists n, sub. split; [reflexivity|split; [exact Hh|]].
@@ -198,7 +198,7 @@ Inductive in_tree : path -> list tree -> path -> Prop :=
 Lemma walk_tree_in_tree prune : forall t p e, In e (walk_tree prune m p t) ->
   exists n l sub, t = Dir n l sub /\ in_tree (child p n true) sub (fst e) /\ snd e = m (fst e).
 Proof.
-  induction t as [n|n link sub IH] using tree_ind'; intros p e H; cbn [walk_tree] in H; [destruct H|].
+  induction t as [n b|n link sub IH] using tree_ind'; intros p e H; cbn [walk_tree] in H; [destruct H|].
   destruct (link || prune (child p n true)); [destruct H|].
   exists n, link, sub. split; [reflexivity|]. apply in_app_iff in H as [H|H].
   - apply in_level in H. destruct H as [t [Ht ->]]. cbn. split; [apply it_here; exact Ht|reflexivity].
